@@ -1469,13 +1469,13 @@ class Rotation(torch.nn.Module):
             if self._single:
                 return self.__class__(self._quaternions[0], inversion=self._is_improper[0], copy=True)
             else:
-                return self.__class__(self._quaternions, inversion=self._is_improper[0], copy=True)
+                return self.__class__(self._quaternions, inversion=self._is_improper, copy=True)
         elif math.isclose(round(n), n) and round(n) % 2:
-            improper: torch.Tensor | bool = self._is_improper
+            improper: torch.Tensor | bool = self._is_improper[0] if self._single else self._is_improper
         else:
             improper = False
 
-        return Rotation.from_rotvec(n * self.as_rotvec(), reflection=improper)
+        return Rotation.from_rotvec(n * self.as_rotvec(improper='ignore'), inversion=improper)
 
     def inv(self) -> Self:
         """Invert this rotation.
